@@ -71,6 +71,9 @@ pub fn guarded<T>(f: impl FnOnce() -> T) -> Option<T> {
 }
 
 pub fn silence_panics() {
+    if std::env::var("VERIF_SHOW_PANICS").is_ok() {
+        return;
+    }
     std::panic::set_hook(Box::new(|_| {}));
 }
 
